@@ -656,13 +656,19 @@ class Circuit(Function):
                     new_operands = tuple(
                         old_to_new_names[operand] for operand in cur_gate.operands
                     )
-                    self._gates[old_to_new_names[cur_gate.label]] = gate.Gate(
-                        label=old_to_new_names[cur_gate.label],
-                        gate_type=cur_gate.gate_type,
-                        operands=new_operands,
-                    )
-                    for operand in new_operands:
-                        self._add_user(operand, old_to_new_names[cur_gate.label])
+                    # one gate of `other` may be connected to several inputs
+                    for this_label, other_label in zip(
+                        this_connectors, other_connectors
+                    ):
+                        if other_label != cur_gate.label:
+                            continue
+                        self._gates[this_label] = gate.Gate(
+                            label=this_label,
+                            gate_type=cur_gate.gate_type,
+                            operands=new_operands,
+                        )
+                        for operand in new_operands:
+                            self._add_user(operand, this_label)
 
         self.set_outputs(
             [output for output in self._outputs if output not in this_connectors]
